@@ -13,6 +13,11 @@ RULE = ("1-16 tasks each put their coroutine in a Syscall state and wait for rea
 
 def run(tier, seed, t0):
     cases = cl.run_cases(PID, "c20", seed, tier, 160 if tier == "thorough" else 24, case_timeout=60, jobs=12)
+    if tier == "thorough":
+        try:
+            cases += cl.asan_cases(PID, "c20", seed, 24, binname="loops")
+        except vlib.BuildError as e:
+            c = vlib.Case(3_000_000); c.engine = "asan"; c.verdict = "inconclusive"; c.sig = "harness/asan-build-failed"; c.detail = str(e)[:300]; cases.append(c)
     return vlib.finish(PID, tier, seed, "exploration", cases, rule=RULE, t0=t0, replay_builder=cl.rb_factory("c20", seed),
                        assumptions=["epoll backend (mio), 64-bit target", "write interest is exercised with one round only: draining a full buffer raises several writable edges"])
 
